@@ -247,3 +247,67 @@ Proof.
   exists [115], [mk 10 0 0 0 24], (V4 10 0 0 7), [mk 10 0 0 0 8], [115], [mk 10 0 0 0 8], (V4 10 99 0 1).
   vm_compute. repeat split; reflexivity.
 Qed.
+
+(* ---- request-side netblock parsing: the canonical block ---- *)
+Lemma land_idem x m : N.land (N.land x m) m = N.land x m.
+Proof. rewrite <- N.land_assoc, N.land_diag. reflexivity. Qed.
+
+Lemma land_byte x m : x < 256 -> N.land x m < 256.
+Proof.
+  intros H. destruct (N.eq_dec (N.land x m) 0) as [E|E]; [rewrite E; lia|].
+  change 256 with (2 ^ 8). apply N.log2_lt_pow2; [lia|].
+  eapply N.le_lt_trans; [apply N.log2_land|].
+  apply N.min_lt_iff. left.
+  destruct (N.eq_dec x 0) as [->|Hx]; [rewrite N.land_0_l in E; contradiction|].
+  apply N.log2_lt_pow2; [lia|exact H].
+Qed.
+
+Lemma canon_wf b : cidr_ok b = true -> wf_block (canon b) = true.
+Proof.
+  unfold cidr_ok, wf_block, masked, canon, mk, is_byte. cbn [plen o0 o1 o2 o3].
+  rewrite !andb_true_iff, !N.ltb_lt. intros [[[[Hp B0] B1] B2] B3].
+  rewrite !land_idem, !N.eqb_refl. repeat split; try assumption; apply land_byte; assumption.
+Qed.
+
+Lemma canon_contains b p : contains (canon b) p = contains b p.
+Proof. destruct p; cbn [contains canon mk plen o0 o1 o2 o3]; rewrite ?land_idem; reflexivity. Qed.
+
+Lemma canon_idem b : canon (canon b) = canon b.
+Proof. unfold canon, mk. cbn [plen o0 o1 o2 o3]. rewrite !land_idem. reflexivity. Qed.
+
+Lemma canon_all_wf req : forallb cidr_ok req = true -> forallb wf_block (map canon req) = true.
+Proof.
+  induction req as [|b r IH]; cbn [forallb map]; [reflexivity|].
+  rewrite !andb_true_iff. intros [A B]. split; [apply canon_wf; exact A|apply IH; exact B].
+Qed.
+
+(* minting from the request text: the certificate authenticates exactly the addresses of the CIDRs
+   as written (any address of the block may stand in the text), reads back as the canonical blocks *)
+Theorem mint_parse_exact cn req p :
+  forallb cidr_ok req = true ->
+  (verify_ip (rc_ext (mint_request cn req)) p = true <-> exists b, In b req /\ contains b p = true).
+Proof.
+  intros W. unfold mint_request, minted. cbn [rc_ext].
+  rewrite (minted_iff _ p (canon_all_wf _ W)). split.
+  - intros [b [I C]]. apply in_map_iff in I. destruct I as [b0 [<- I]]. exists b0. split; [exact I|].
+    rewrite canon_contains in C. exact C.
+  - intros [b [I C]]. exists (canon b). split; [apply in_map; exact I|]. rewrite canon_contains. exact C.
+Qed.
+
+Theorem mint_parse_readback cn req :
+  forallb cidr_ok req = true -> extract (rc_ext (mint_request cn req)) = Some (map canon req).
+Proof. intros W. apply extract_minted. apply canon_all_wf. exact W. Qed.
+
+(* in numbers: a.b.c.d/p admits the peer iff the peer's leading p bits are those of a.b.c.d *)
+Theorem mint_parse_numeric cn req a0 a1 a2 a3 :
+  forallb cidr_ok req = true -> a0 < 256 -> a1 < 256 -> a2 < 256 -> a3 < 256 ->
+  (verify_ip (rc_ext (mint_request cn req)) (V4 a0 a1 a2 a3) = true <->
+   exists b, In b req /\ bnum b / 2 ^ (32 - plen b) = num a0 a1 a2 a3 / 2 ^ (32 - plen b)).
+Proof.
+  intros W A0 A1 A2 A3. rewrite (mint_parse_exact cn req _ W).
+  rewrite forallb_forall in W.
+  split; intros [b [I C]]; exists b; (split; [exact I|]);
+    specialize (W b I); unfold cidr_ok, is_byte in W; rewrite !andb_true_iff, !N.ltb_lt, N.leb_le in W;
+    destruct W as [[[[Hp B0] B1] B2] B3];
+    apply (contains_numeric b a0 a1 a2 a3 Hp B0 B1 B2 B3 A0 A1 A2 A3); exact C.
+Qed.
